@@ -129,13 +129,13 @@ Section Card.
   Qed.
 
   (* ---------------- generate_cvv ---------------- *)
-  Lemma generate_cvv_char cvk pan expiry service_code : bytes_ok cvk = true ->
+  Lemma generate_cvv_char cvk pan expiry service_code :
     (dom_generate_cvv cvk pan expiry service_code /\
        exists v, generate_cvv cd cvk pan expiry service_code = Ok v) \/
     (~ dom_generate_cvv cvk pan expiry service_code /\
        generate_cvv cd cvk pan expiry service_code = Err ValueError).
   Proof.
-    intros Bk. unfold dom_generate_cvv, generate_cvv, cvv_block.
+    unfold dom_generate_cvv, generate_cvv, cvv_block.
     destruct (Nat.eqb_spec (length cvk) 16) as [Lk|Lk]; cbn [negb].
     2:{ right. split; [tauto|reflexivity]. }
     destruct ((19 <? length pan)%nat || negb (ascii_numeric pan)) eqn:G1.
@@ -279,7 +279,7 @@ End Card.
 (* final statements (used by Properties/C16.v)                          *)
 Theorem generate_cvv_domain : forall cd, cipher_ok cd -> bs cd = 8%nat ->
   (forall k, valid_key cd k = tdes_valid_key k) ->
-  forall cvk pan expiry service_code, bytes_ok cvk = true ->
+  forall cvk pan expiry service_code,
   accepts_exactly (dom_generate_cvv cvk pan expiry service_code)
                   (generate_cvv cd cvk pan expiry service_code).
 Proof. intros. apply char_accepts, generate_cvv_char; assumption. Qed.
